@@ -4,7 +4,7 @@ from ..fdai import EnumV, SymV
 from . import dispatch as D
 
 LEVEL = "other"
-TECHNIQUE = 'FDAI decision tables of Parameters::{next_optional_token,next_token,next_data,next_optional_data} and of the post-unit check in Node::run_tokens over all 13 token variants + lexer error + end of input (pairs after a data separator); Token::is_data variant table; lexer typestate for the data separator; whole-element tables of the six data kinds and of the separator (payload and bytes consumed vs a reference lexer); Node::run builds the tokenizer from the message bytes as given'
+TECHNIQUE = 'FDAI decision tables of Parameters::{next_optional_token,next_token,next_data,next_optional_data} and of the post-unit check in Node::run_tokens over all 13 token variants + lexer error + end of input (pairs after a data separator); Token::is_data variant table; lexer typestate for the data separator; whole-element tables of the six data kinds and of the separator (payload and bytes consumed vs a reference lexer); Node::run builds the tokenizer from the message bytes as given; whole-message tables (sa/rules/msgtable.py): Node::run folded end to end on concrete messages against a concrete tree with the real tokenizer, dispatcher, Parameters, ResponseUnit and formatter impl analysed in place and scripted handlers, compared with a reference execution written from SCPI-99 6.2.4 / IEEE 488.2 7-8 - handlers pulling k required + j optional parameters against units with 0..k+j+1 elements of every kind, alone and followed by units with elements of their own'
 LEVEL_TEXT = "Exact decision tables over the finite token alphabet: for every token class (and every pair after `,`) the abstract interpreter enumerates what Parameters consumes from the shared cursor, what it returns, and which error arises; the post-unit table of run_tokens is enumerated the same way. Compared with the expected tables (consume only data / separator+data, -109 for a missing required parameter, None for a missing optional one, -108 for leftovers)."
 LEVEL_NOTE = "Not decided: that a token's payload equals the input bytes it denotes (C04's value-level part); conduct of user handlers. Trusted: rustc MIR, FDAI models of Peekable and Option/Result combinators."
 
